@@ -608,7 +608,7 @@ def write_evidence(prop, tier, cfg, seed, agg, crashes, viols, reported, run_wal
         ),
         assumptions=cfg.get("assumptions", []) + [
             "sampling, not proof: a clean batch is evidence for the explored runs only",
-            "x86-64 little-endian host; the kernel (tmpfs, fstat, mmap, mkstemp) is real and its failures are not injected",
+            "x86-64 little-endian host; the kernel (tmpfs, fstat, mmap, mkstemp) is real; of its failures only those named under faults_fired are injected (write(2) short / EINTR / hard errors for C20, mmap ENOMEM for C18)",
             "every run is a pure function of (VERIF_SEED=%d, run index, /repo working tree): replay with bin/check --replay <plan>" % seed,
         ],
     )
